@@ -167,6 +167,26 @@ def check_case(ctx, c):
         evr = mrev.get_expectation_values(op)
         if any(abs(complex(evr.values[i]) - means[i]) > tol for i in range(k)) or np.max(np.abs(np.asarray(evr.correlations[0]) - corr)) > tol:
             out.append(("means:reordered", "%s: the same histogram listed in reverse order gives values %s / correlations %s, sample statistics %s / %s" % (desc, list(evr.values), np.asarray(evr.correlations[0]).real.tolist(), means, corr.tolist())))
+    # the marked qubits are an Iterable: a generator / iterator / tuple / set say the same thing as a list
+    for i, t in enumerate(c["op"]):
+        wantf = (tallies[i][0] - tallies[i][1]) / N
+        for how, mk in (("generator", lambda: (q for q in t["sup"])), ("iterator", lambda: iter(list(t["sup"]))), ("tuple", lambda: tuple(t["sup"])), ("set", lambda: set(t["sup"]))):
+            try:
+                fv = get_expectation_value_from_frequencies(mk(), counts)
+            except Exception as ex:
+                out.append(("from-frequencies:iterable", "%s: marked qubits %s given as a %s: %s: %s" % (desc, t["sup"], how, type(ex).__name__, str(ex)[:120])))
+                continue
+            if abs(fv - wantf) > tol:
+                out.append(("from-frequencies:iterable", "%s: marked qubits %s given as a %s: %s, sample mean %s" % (desc, t["sup"], how, fv, wantf)))
+    # a histogram that is refused (if the library refuses it at all: keys of another width, not listed first) leaves the set as it was
+    m3 = Measurements(list(shots))
+    bad = {"".join(map(str, shots[0])): 2, "0" * (len(shots[0]) + 1): 1}
+    before3 = list(m3.bitstrings)
+    try:
+        m3.add_counts(bad)
+    except Exception:
+        if list(m3.bitstrings) != before3:
+            out.append(("add_counts:half-done", "%s: add_counts(%s) raised, but %d shot(s) of the refused histogram stayed in the measurement set" % (desc, bad, len(m3.bitstrings) - len(before3))))
     for i, t in enumerate(c["op"]):
         f = get_expectation_value_from_frequencies(t["sup"], counts)
         if abs(f - (tallies[i][0] - tallies[i][1]) / N) > tol:
